@@ -219,4 +219,64 @@ theorem initial_list : (vs : List View) → ∀ (anc : List Str) (pos : Position
     exact initial_view v anc pos _ hw.1 hp.1 hne.1
 end
 
+/-! the DOM after hydration (current code: the adopted `" "` of an empty string is reset) -/
+
+theorem pushText_empty (acc : List Dom.Tree) : pushText "" acc = acc := by
+  cases acc with
+  | nil => rfl
+  | cons t ts => cases t <;> rfl
+
+mutual
+theorem initialA_view : (v : View) → ∀ (anc : List Str) (pos : Position) (acc : List Dom.Tree),
+    wfV anc v = true → plainV v = true →
+    (domA v pos).foldr stripT acc = (render v).foldr stripT acc
+  | .text s, _, pos, acc, _, _ => by
+    by_cases hp : pos = .nextChildAfterText <;> simp [domA, hp, render, stripT]
+  | .unit, _, _, acc, _, _ => by simp [domA, render, stripT]
+  | .onone, _, _, acc, _, _ => by simp [domA, render, stripT]
+  | .osome v, anc, pos, acc, hw, hp => by
+    simpa [domA, render] using initialA_view v anc pos acc (by simpa [wfV] using hw) (by simpa [plainV] using hp)
+  | .either _ _ v, anc, pos, acc, hw, hp => by
+    simpa [domA, render] using initialA_view v anc pos acc (by simpa [wfV] using hw) (by simpa [plainV] using hp)
+  | .any _ v, anc, pos, acc, hw, hp => by
+    simpa [domA, render] using initialA_view v anc pos acc (by simpa [wfV] using hw) (by simpa [plainV] using hp)
+  | .tuple vs, anc, pos, acc, hw, hp => by
+    simpa [domA, render] using initialA_list vs anc pos acc (by simpa [wfV] using hw) (by simpa [plainV] using hp)
+  | .vec vs, anc, pos, acc, hw, hp => by
+    have := initialA_list vs anc pos (stripT (.comment "") acc) (by simpa [wfV] using hw)
+      (by simpa [plainV] using hp)
+    simpa [domA, render, List.foldr_append] using this
+  | .elem tag as c, anc, pos, acc, hw, hp => by
+    simp only [wfV, Bool.and_eq_true, Bool.or_eq_true] at hw
+    obtain ⟨⟨hattrs, _⟩, hcase⟩ := hw
+    simp only [plainV, Bool.and_eq_true] at hp
+    have hat := attrs_like_csr as hp.1 hattrs
+    have hkids : stripL (if isVoidT tag = true then [] else if viewExists c = true then domA c .firstChild else []) =
+        stripL (if View.isVoid tag = true then [] else render c) := by
+      rw [isVoid_agree]
+      by_cases hv : isVoidT tag = true
+      · simp [hv]
+      · by_cases hex : viewExists c = true
+        · rcases hcase with ⟨_, hc⟩ | ⟨hvo, _⟩
+          · have := initialA_view c _ .firstChild [] hc hp.2
+            simpa [hv, hex, stripL_eq_foldr] using this
+          · simp only [Html.voidOK, Bool.and_eq_true] at hvo
+            exact absurd hvo.1.2 hv
+        · have hc := viewExists_false (by simpa using hex)
+          subst hc
+          simp [hv, viewExists, render, stripL, stripT]
+    simp only [domA, render, List.foldr_cons, List.foldr_nil, stripT]
+    rw [hat, hkids]
+theorem initialA_list : (vs : List View) → ∀ (anc : List Str) (pos : Position) (acc : List Dom.Tree),
+    wfL anc vs = true → plainL vs = true →
+    (domAL vs pos).foldr stripT acc = (renderList vs).foldr stripT acc
+  | [], _, _, acc, _, _ => by simp [domAL, renderList]
+  | v :: vs, anc, pos, acc, hw, hp => by
+    simp only [wfL, Bool.and_eq_true] at hw
+    simp only [plainL, Bool.and_eq_true] at hp
+    simp only [domAL, renderList, List.foldr_append]
+    rw [initialA_list vs anc _ acc hw.2 hp.2]
+    exact initialA_view v anc pos _ hw.1 hp.1
+end
+
 end Leptos.Hydrate
